@@ -168,6 +168,18 @@ def gen_random(name, seed, base, symlinks=None, hostile=None):
                             families=1 + rng.below(3))
     s.roots = tree.roots
     s.hostile, s.use_sym = hostile, use_sym
+    if use_sym and tree.files:
+        # symlinks in OTHER directories / roots (absolute or relative), so that a link can sort before its target, sit in
+        # another isolated root, or be hard-linked from elsewhere (K2 / K7 / N6 territory)
+        dirs_ = sorted({os.path.dirname(f["path"]) for f in tree.files} | set(tree.roots))
+        for k in range(rng.below(4)):
+            f = rng.choice(tree.files)
+            d = rng.choice(dirs_)
+            lp = os.path.join(d, b"x%d.lnk" % k)
+            if os.path.lexists(lp):
+                continue
+            tgt = f["path"] if rng.chance(1, 2) else os.path.relpath(f["path"], d)
+            os.symlink(tgt, lp)
     s.stamp_mtimes(rng)
     if use_sym:
         s.group_opts.append("--symbolic-links")
@@ -444,8 +456,15 @@ def c02_oracle(s, inv0, inv1, rc, err):
             else:
                 ok = before in under        # a moved symlink: its bytes must be readable somewhere under DIR
             if not ok:
-                bad.append(({"kind": "moved_bytes_not_readable"}, "%r was moved but its bytes are not readable at %r" % (p, tgt),
-                            dict(ctxt, path=p.decode("utf-8", "replace"))))
+                sig = {"kind": "moved_bytes_not_readable"}
+                tq = resolve(inv0, p)
+                if e0[0] == "l" and eff["iso"] and "--symbolic-links" in s.group_opts and tq is not None and tq not in removed:
+                    # K2's mirror image: isolation made the SYMLINK a replica of its own (its target, in another root, is kept);
+                    # the relative link is moved alone and dangles under DIR
+                    sig = {"kind": "isolated_symlink_moved_without_its_target"}
+                bad.append((sig, "%r was moved but its bytes are not readable at %r" % (p, tgt),
+                            dict(ctxt, path=p.decode("utf-8", "replace"), link_text=(e0[3] or b"").decode("utf-8", "replace"),
+                                 resolved_to=(tq or b"?").decode("utf-8", "replace"))))
                 break
     if rc not in (0,):
         bad.append(({"kind": "dedupe_command_failed"}, "fclones %s exited %d: %s" % (s.op, rc, err[-300:].decode("utf-8", "replace")), ctxt))
